@@ -33,7 +33,9 @@ MAXD, EPS = 1000, 1e-20
 
 
 def bounds(tier):
-    return {"models": "P(3..4%s,{0..3}), P(3,{0,1,2}^2) x all k ranges" % (",5" if tier == "thorough" else ""),
+    return {"models": "P(3..4%s,{0..3}), P(3,{0,1,2}^2) x all k ranges; P(4,{0..3}) scaled by 1e-11 under "
+            "squared_euclidean%s" % ((",5", "") if tier == "thorough" else
+                                     ("", "; P(5,{0..3}) with forced k = 2, 3 and training copies as queries")),
             "metrics": METRICS[tier], "batch_positions": "0..n"}
 
 
@@ -46,6 +48,13 @@ def plan(tier, seed):
                 shards.append(("1d", n, mt, a, b))
         for a, b in E.chunks(729, 30):
             shards.append(("2d", 3, mt, a, b))
+    if tier == "quick":
+        # five samples, reduced: copies of training samples as queries, forced k = 2, 3
+        for a, b in E.chunks(4 ** 5, 32):
+            shards.append(("1d-copies", 5, "euclidean", a, b))
+    # ordinary lattice data at a scale where every squared distance is ~1e-22
+    for a, b in E.chunks(4 ** 4, 16):
+        shards.append(("1d-tiny", 4, "squared_euclidean", a, b))
     return shards
 
 
@@ -70,7 +79,7 @@ def programs(shard, seed):
     for p in _programs(shard, seed):
         yield p
         lo = p.get("min_k", 1)
-        if p["max_k"] > lo:
+        if p["max_k"] > lo and "force_k" not in p:
             for k in range(lo, p["max_k"] + 1):
                 q = dict(p)
                 q["force_k"] = k
@@ -79,7 +88,29 @@ def programs(shard, seed):
 
 def _programs(shard, seed):
     lk, n, metric, a, b = shard
-    pts = E.lattice(lk, seed)
+    if lk == "1d-copies":
+        pts = E.lattice("1d", seed)
+        pad = [p * 1000.0 + 5000.0 for p in pts[-1]]
+        for si in range(a, b):
+            seq = E.sequence_at(len(pts), n, si)
+            X = [list(pts[i]) for i in seq]
+            for mx in (2, 3):
+                for model in ("UnsupervisedOPF", "KNNSupervisedOPF"):
+                    lab = [i % 2 for i in range(n)]
+                    p = {"model": model, "mode": "features", "X": X, "metric": metric, "labels": lab,
+                         "max_k": mx, "force_k": mx, "queries": [list(q) for q in pts], "pad": pad,
+                         "positions": [0, n]}
+                    if model == "UnsupervisedOPF":
+                        p["min_k"] = 1
+                    else:
+                        p["val"] = {"X": X, "labels": lab}
+                    yield p
+        return
+    if lk == "1d-tiny":
+        pts = [tuple(v * 1e-11 for v in p) for p in E.lattice("1d", seed)]
+        lk = "1d"
+    else:
+        pts = E.lattice(lk, seed)
     qs = [list(q) for q in queries(pts)]
     if lk == "2d":
         qs = qs[::3] + [qs[-1]]
